@@ -98,6 +98,7 @@ type pathRun struct {
 	encTab   map[*smt.Term]geGhost
 	canonMemo map[[2]int]*smt.Term
 	hashIntApps []hashIntApp
+	bitLens [][2]*smt.Term
 }
 
 func (p *pathRun) note(format string, a ...interface{}) {
@@ -177,7 +178,7 @@ func (p *pathRun) fork(cond *smt.Term, why string) bool {
 	tf := time.Now()
 	defer func() {
 		if d := time.Since(tf); d > 700*time.Millisecond && os.Getenv("GOSYM_SLOW") != "" {
-			fmt.Fprintf(os.Stderr, "  [slow fork %v] %s at %s: %.200s\n", d.Round(time.Millisecond), why, p.site(p.lastFr), cond.String())
+			fmt.Fprintf(os.Stderr, "  [slow fork %v] %s at %s: %.200s\n     stack %v\n", d.Round(time.Millisecond), why, p.site(p.lastFr), cond.String(), p.stack(p.lastFr))
 		}
 	}()
 	rt := p.feas(cond)
@@ -334,27 +335,23 @@ func (p *pathRun) searchModel(extra *smt.Term) (map[string]*big.Int, bool) {
 	// the large prime moduli seen on this path (group orders): values just below them are the
 	// other family of pins (boundary values q-1, q-2, ...)
 	var order *big.Int
-	for k := range p.canonMemo {
-		_ = k
+	seenT := map[*smt.Term]bool{}
+	var walk func(t *smt.Term)
+	walk = func(t *smt.Term) {
+		if order != nil || seenT[t] {
+			return
+		}
+		seenT[t] = true
+		if t.Op == "mod" && t.Args[1].IsConst() && t.Args[1].Val.BitLen() > 200 && p.eng.knownPrime(t.Args[1].Val) {
+			order = t.Args[1].Val
+			return
+		}
+		for _, a := range t.Args {
+			walk(a)
+		}
 	}
 	for _, t := range p.pc {
-		if order != nil {
-			break
-		}
-		var walk func(t *smt.Term, d int)
-		walk = func(t *smt.Term, d int) {
-			if order != nil || d > 6 {
-				return
-			}
-			if t.Op == "mod" && t.Args[1].IsConst() && t.Args[1].Val.BitLen() > 200 && p.eng.knownPrime(t.Args[1].Val) {
-				order = t.Args[1].Val
-				return
-			}
-			for _, a := range t.Args {
-				walk(a, d+1)
-			}
-		}
-		walk(t, 0)
+		walk(t)
 	}
 	rounds := 6
 	if order != nil {
